@@ -27,6 +27,9 @@ Record tcase := {
   t_batch : Z; t_log : bool; t_rerun : bool; t_maxRetries : Z; t_retryDelay : Z;
   t_killAt : Z; t_adds : list Z; t_crons : Z; t_timer : bool;
   t_full : bool;         (* trigger with jobType fullsync *)
+  t_transform : bool;    (* the job has an identity transform (it gets wrapped as well): no influence on the model *)
+  t_pokeAt : Z;          (* a second start of the same job object during this inner sink call: it gets no ticket and is
+                            skipped without any effect on the run in progress - no influence on the model *)
   t_burst : Z;           (* > 0: that many externally triggered runs while re-runs are pending; o_runs = [final state] *)
   (* observed *)
   o_outcome : Z;         (* 0 = the driver ran the case *)
